@@ -160,7 +160,7 @@ Qed.
 
 Lemma hok_lru_remove s k s' : hok s -> key_ok s k -> lru_remove s k = COk s' -> hok s'.
 Proof.
-  intros [Hc Hh] Hok. unfold CacheModel.lru_remove.
+  intros [Hc Hh] Hok. unfold CacheModel.lru_remove, lremove_at.
   destruct (CacheModel.map_get K keqb (present s) k) as [z|] eqn:Hg; [|intro H; injection H as <-; split; assumption].
   destruct (Remove prio hv (access s) z) as [[[q m] r]| |] eqn:HR; cbn [lift cbind]; try discriminate.
   destruct (hok_remove _ _ _ _ _ Hc Hh (Hok z Hg) HR) as [A B].
@@ -194,8 +194,8 @@ Proof.
   intros [Hc Hh] FR. unfold CacheModel.lru_store. destruct (CacheModel.map_get K keqb (present s) k); [discriminate|].
   destruct (Add prio hv (access s) _) as [[[q m] r]| |] eqn:HR; cbn [lift cbind]; try discriminate.
   assert (Hmax : forall b, In b (data (access s)) ->
-            lastAccess b <= lastAccess {| lastAccess := store_clock (clock s); key := k; value := v |}).
-  { intros b Hb. cbn [lastAccess]. unfold store_clock. specialize (FR b Hb). lia. }
+            lastAccess b <= lastAccess {| lastAccess := store_stamp (store_clock (clock s)); key := k; value := v |}).
+  { intros b Hb. cbn [lastAccess]. unfold store_clock, store_stamp. specialize (FR b Hb). lia. }
   destruct (hok_add _ _ _ _ _ Hc Hh Hmax HR) as (A & B & C). intro H. injection H as <-.
   split; [split; assumption|]. eapply top_last_snoc; [cbn [access]; exact C|exact Hmax].
 Qed.
@@ -203,7 +203,7 @@ Qed.
 Lemma hok_lru_access s k s' r : hok s -> fresh s -> key_ok s k -> lru_access s k = COk (s', r) ->
   hok s' /\ (snd r = true -> top_last s').
 Proof.
-  intros [Hc Hh] FR Hok. unfold CacheModel.lru_access.
+  intros [Hc Hh] FR Hok. unfold CacheModel.lru_access, access_remove_at.
   destruct (CacheModel.map_get K keqb (present s) k) as [z|] eqn:Hg;
     [|intro H; injection H as <- <-; split; [split; assumption|discriminate]].
   destruct (Remove prio hv (access s) z) as [[[q1 m1] r1]| |] eqn:HR; cbn [lift cbind]; try discriminate.
@@ -489,7 +489,7 @@ Proof.
   assert (ND : NoDup (keys l)) by (destruct HO as (LI & _ & _ & RO); exact (nodup_l2 _ _ LI RO)).
   destruct o as [k v|k|k|k| | |]; cbn [CacheModel.step CacheSpec.s2_step CacheSpec.settles].
   - (* Put *)
-    unfold cache_put. rewrite Hlim.
+    unfold cache_put. change put_stored_result with true. change put_refused_result with false. rewrite Hlim.
     assert (Hkey : put_refuse (sizeOf v) lim = false -> key_ok (store c) k).
     { intro Hr. apply (op_ok_key c (OPut k v) k Hok). right. right. exists v. rewrite Hlim. auto. }
     revert Hkey. unfold put_refuse.
@@ -546,7 +546,8 @@ Proof.
     unfold cache_has. rewrite (check2 _ _ k HO). cbn [cbind]. exists c. cbn [fst snd].
     split; [destruct (find l k); reflexivity|]. split; [exact R|]. split; [discriminate|reflexivity].
   - (* Remove *)
-    unfold cache_remove. rewrite (check2 _ _ k HO).
+    unfold cache_remove. change remove_found_result with true. change remove_absent_result with false.
+    rewrite (check2 _ _ k HO).
     destruct (find l k) as [old|] eqn:F; cbn [cbind].
     + assert (Hkey : key_ok (store c) k) by (apply (op_ok_key c (ORemove k) k Hok); right; left; reflexivity).
       destruct (remove2 _ _ k old HO Hkey F) as (s1 & HR & HO1 & _). rewrite HR. cbn [cbind].
